@@ -1,162 +1,18 @@
 import NoteSeqVerif.Proofs.C20
 import NoteSeqVerif.Proofs.C20_rne
-import NoteSeqVerif.Props.C20_chunk00
-import NoteSeqVerif.Props.C20_chunk01
-import NoteSeqVerif.Props.C20_chunk02
-import NoteSeqVerif.Props.C20_chunk03
-import NoteSeqVerif.Props.C20_chunk04
-import NoteSeqVerif.Props.C20_chunk05
-import NoteSeqVerif.Props.C20_chunk06
-import NoteSeqVerif.Props.C20_chunk07
-import NoteSeqVerif.Props.C20_chunk08
-import NoteSeqVerif.Props.C20_chunk09
-import NoteSeqVerif.Props.C20_chunk10
-import NoteSeqVerif.Props.C20_chunk11
-import NoteSeqVerif.Props.C20_chunk12
-import NoteSeqVerif.Props.C20_chunk13
-import NoteSeqVerif.Props.C20_chunk14
-import NoteSeqVerif.Props.C20_chunk15
-/-! C20 — property theorems only.
-`Gen.toFloatDiv` / `Gen.toIntMul` are regenerated from `note_seq/audio_io.py` on every run, so a
-changed scale constant changes the statement that the 16 chunk modules decide. -/
+/-! C20 — property theorems only, part 2: crop_samples, repeat_samples_to_duration, make_stereo
+over `List` models of any length (part 1, the 65 536-value round trip, is `Props/C20_pcm.lean`). -/
 namespace NSV.C20
-
-/-! ## 16-bit PCM → float32 → 16-bit PCM is the identity on all 65 536 values -/
-
-/-- the 16 kernel-decided chunks assembled: every int16 value passes the check -/
-theorem pcmOk_all (k : Int) (h1 : -32768 ≤ k) (h2 : k ≤ 32767) : pcmOk k = true := by
-  by_cases c00 : k < -28672
-  · exact pcmOk_of_range pcm_chunk00 k (by omega) (by omega)
-  by_cases c01 : k < -24576
-  · exact pcmOk_of_range pcm_chunk01 k (by omega) (by omega)
-  by_cases c02 : k < -20480
-  · exact pcmOk_of_range pcm_chunk02 k (by omega) (by omega)
-  by_cases c03 : k < -16384
-  · exact pcmOk_of_range pcm_chunk03 k (by omega) (by omega)
-  by_cases c04 : k < -12288
-  · exact pcmOk_of_range pcm_chunk04 k (by omega) (by omega)
-  by_cases c05 : k < -8192
-  · exact pcmOk_of_range pcm_chunk05 k (by omega) (by omega)
-  by_cases c06 : k < -4096
-  · exact pcmOk_of_range pcm_chunk06 k (by omega) (by omega)
-  by_cases c07 : k < 0
-  · exact pcmOk_of_range pcm_chunk07 k (by omega) (by omega)
-  by_cases c08 : k < 4096
-  · exact pcmOk_of_range pcm_chunk08 k (by omega) (by omega)
-  by_cases c09 : k < 8192
-  · exact pcmOk_of_range pcm_chunk09 k (by omega) (by omega)
-  by_cases c10 : k < 12288
-  · exact pcmOk_of_range pcm_chunk10 k (by omega) (by omega)
-  by_cases c11 : k < 16384
-  · exact pcmOk_of_range pcm_chunk11 k (by omega) (by omega)
-  by_cases c12 : k < 20480
-  · exact pcmOk_of_range pcm_chunk12 k (by omega) (by omega)
-  by_cases c13 : k < 24576
-  · exact pcmOk_of_range pcm_chunk13 k (by omega) (by omega)
-  by_cases c14 : k < 28672
-  · exact pcmOk_of_range pcm_chunk14 k (by omega) (by omega)
-  exact pcmOk_of_range pcm_chunk15 k (by omega) (by omega)
-
-/-- the Python-int multiplier is exactly representable in float32 (so `y * 32767` is one rounding) -/
-theorem toIntMul_exact : rne 24 (Gen.toIntMul : Rat) = (Gen.toIntMul : Rat) := by decide +kernel
-
-/-- **pcm_roundtrip**: `float_samples_to_int16 (int16_samples_to_float32 [k]) = [k]` for every
-int16 value `k` — float32 division and multiplication by `rne24`, `astype(int16)` by truncation. -/
-theorem pcm_roundtrip (k : Int) (h1 : -32768 ≤ k) (h2 : k ≤ 32767) :
-    floatToInt16 24 (int16ToFloat k) = some k := by
-  have h := pcmOk_all k h1 h2
-  unfold pcmOk at h
-  have hv : truncR (rne 24 (int16ToFloat k * rne 24 (Gen.toIntMul : Rat))) = k := by
-    rw [toIntMul_exact]; exact eq_of_beq h
-  unfold floatToInt16
-  simp only [hv]
-  simp [h1, h2]
-
-/-- the same fact written out with the literal constants of the property statement -/
-theorem pcm_roundtrip_literal (k : Int) (h1 : -32768 ≤ k) (h2 : k ≤ 32767) :
-    truncR (rne24 (rne24 ((k : Rat) / 32767) * 32767)) = k := by
-  have h := pcmOk_all k h1 h2
-  unfold pcmOk at h
-  exact eq_of_beq h
-
-/-- consequently the int16 → float32 map is injective on int16 -/
-theorem int16ToFloat_injective (j k : Int) (hj : -32768 ≤ j ∧ j ≤ 32767) (hk : -32768 ≤ k ∧ k ≤ 32767)
-    (h : int16ToFloat j = int16ToFloat k) : j = k := by
-  have a := pcm_roundtrip j hj.1 hj.2
-  have b := pcm_roundtrip k hk.1 hk.2
-  rw [h, b] at a
-  exact (Option.some.inj a).symm
-
-/-- array level, with the dtype checks of both helpers: any int16 array, any length -/
-theorem pcm_roundtrip_list (ks : List Int) (h : ∀ k ∈ ks, -32768 ≤ k ∧ k ≤ 32767) :
-    ∃ fs, int16SamplesToFloat32 .int16 ks = .ok fs ∧
-      floatSamplesToInt16 .float32 fs = .ok (ks.map some) := by
-  refine ⟨ks.map int16ToFloat, by simp [int16SamplesToFloat32], ?_⟩
-  simp only [floatSamplesToInt16, Dtype.prec, List.map_map]
-  congr 1
-  apply List.map_congr_left
-  intro k hk
-  exact pcm_roundtrip k (h k hk).1 (h k hk).2
-
-example : floatToInt16 24 (int16ToFloat (-12345)) = some (-12345) := pcm_roundtrip _ (by omega) (by omega)
-example : int16ToFloat 1 ≠ 1 / 32767 := by decide +kernel   -- the float32 quotient is genuinely rounded
-
-/-- dtype errors of the two helpers -/
-theorem int16_to_float_rejects (dt : Dtype) (ys : List Int) (h : dt ≠ .int16) :
-    int16SamplesToFloat32 dt ys = .error "ValueError" := by
-  simp [int16SamplesToFloat32, h]
-
-theorem float_to_int16_rejects (dt : Dtype) (ys : List Rat) (h : dt.prec = none) :
-    floatSamplesToInt16 dt ys = .error "ValueError" := by
-  simp [floatSamplesToInt16, h]
-
-example : Dtype.int16.prec = none ∧ Dtype.float32 ≠ Dtype.int16 := by decide
-
-/-! ## WAV encode → decode at the same rate (codec = identity on int16 arrays: monitored, not proved) -/
-
-/-- `samples_to_wav_data` hands the codec exactly the int16 array `ks`, and `wav_data_to_samples`
-turns that array back into exactly the float32 samples it came from -/
-theorem wav_roundtrip (ks : List Int) (h : ∀ k ∈ ks, -32768 ≤ k ∧ k ≤ 32767) :
-    floatSamplesToInt16 .float32 (ks.map int16ToFloat) = .ok (ks.map some) ∧
-    wavDataToSamples (.ints .int16 ks) = .ok (ks.map int16ToFloat) ∧
-    wavRoundTrip .float32 (ks.map int16ToFloat) = .ok ((ks.map int16ToFloat).map some) := by
-  obtain ⟨fs, h1, h2⟩ := pcm_roundtrip_list ks h
-  have e : fs = ks.map int16ToFloat := by
-    simp [int16SamplesToFloat32] at h1; exact h1.symm
-  subst e
-  refine ⟨h2, by simp [wavDataToSamples, int16SamplesToFloat32], ?_⟩
-  simp [wavRoundTrip, h2, List.map_map, Function.comp_def]
-
-example : wavRoundTrip .float32 ([0, -32768, 32767, 1].map int16ToFloat) =
-    .ok (([0, -32768, 32767, 1].map int16ToFloat).map some) :=
-  (wav_roundtrip _ (by decide)).2.2
 
 /-! ## crop_samples
 
 `R` is the rounding applied to the float product `seconds * sample_rate`; the code is `R = rne53`
 (`crop`), the exact-arithmetic reading is `R = id`.  `SignPreserving R` is all the theorems need. -/
 
-/-- what the theorems need of the rounding operator: zero stays zero, positive stays positive -/
-structure SignPreserving (R : Rat → Rat) : Prop where
-  zero : R 0 = 0
-  pos : ∀ x, 0 < x → 0 < R x
-
 theorem signPreserving_rne53 : SignPreserving rne53 :=
   ⟨rne_zero 53, rne_pos 53 (by decide)⟩
 
 theorem signPreserving_id : SignPreserving id := ⟨rfl, fun _ h => h⟩
-
-theorem SignPreserving.nonneg {R} (h : SignPreserving R) (x : Rat) (hx : 0 ≤ x) : 0 ≤ R x := by
-  by_cases h0 : x = 0
-  · subst h0; rw [h.zero]; exact Rat.le_refl
-  · exact Rat.le_of_lt (h.pos x (by grind))
-
-theorem secToSamples_nonneg {R} (hR : SignPreserving R) (secs : Rat) (rate : Int)
-    (hs : 0 ≤ secs) (hr : 0 ≤ rate) : 0 ≤ secToSamples R secs rate := by
-  unfold secToSamples
-  apply truncR_nonneg
-  apply hR.nonneg
-  exact Rat.mul_nonneg hs (Rat.intCast_nonneg.mpr hr)
 
 /-- **crop_spec**: for non-negative offset/length the result is exactly the existing samples with
 index in `[a, a+n)`, `a = int(begin·rate)`, `n = int(length·rate)` -/
@@ -197,19 +53,6 @@ example : secToSamples rne53 (rne53 (35 / 100)) 100 = 35 ∧ secToSamples id (rn
   decide +kernel
 
 /-! ## repeat_samples_to_duration -/
-
-theorem rat_div_pos (a b : Rat) (ha : 0 < a) (hb : 0 < b) : 0 < a / b := by
-  rw [Rat.div_def]; exact Rat.mul_pos ha (Rat.inv_pos.mpr hb)
-
-theorem rat_ceil_pos (x : Rat) (h : 0 < x) : 0 < x.ceil := by
-  have := @Rat.le_ceil x
-  have : (0 : Rat) < (x.ceil : Rat) := by grind
-  exact Rat.intCast_pos.mp this
-
-theorem secToSamples_zero {R} (hR : SignPreserving R) (rate : Int) : secToSamples R 0 rate = 0 := by
-  unfold secToSamples
-  rw [Rat.zero_mul, hR.zero]
-  decide
 
 /-- errors, in the order the Python raises them -/
 theorem repeat_errors {α} (R : Rat → Rat) (xs : List α) (rate : Int) (D : Rat) :
@@ -357,26 +200,6 @@ example : repeatSamples ([] : List Nat) 2 4 = .error "ZeroDivisionError" ∧
 theorem stereo_dtype_error {α} (z : α) (dl dr : Dtype) (l r : List α) (h : dl ≠ dr) :
     makeStereo z dl dr l r = .error "AudioIODataTypeError" := by
   simp [makeStereo, h]
-
-/-- the masked assignment into `np.zeros((2, maxlen))` produces the two zero-padded rows -/
-theorem stereo_rows {α} (z : α) (l r : List α) :
-    fillMasked z
-      ((List.range (max l.length r.length)).map (fun i => decide (i < l.length)) ++
-       (List.range (max l.length r.length)).map (fun i => decide (i < r.length))) (l ++ r) =
-    .ok ((l ++ List.replicate (max l.length r.length - l.length) z) ++
-         (r ++ List.replicate (max l.length r.length - r.length) z)) := by
-  rw [mask_eq, mask_eq]
-  have e1 : min l.length (max l.length r.length) = l.length := by omega
-  have e2 : min r.length (max l.length r.length) = r.length := by omega
-  rw [e1, e2, List.append_assoc, fillMasked_true, fillMasked_false]
-  have h := fillMasked_true z r (List.replicate (max l.length r.length - r.length) false ++ []) []
-  rw [List.append_nil] at h
-  rw [List.append_nil] at h
-  rw [h]
-  have h2 := fillMasked_false z (max l.length r.length - r.length) [] []
-  rw [List.append_nil] at h2
-  rw [h2]
-  simp [fillMasked, Except.map]
 
 /-- **stereo_spec**: same dtype ⇒ `max |l| |r|` frames, frame `i` is `(l[i], r[i])` with the
 shorter channel padded by zeros (`getD` here *is* the specification of zero padding) -/
